@@ -277,8 +277,21 @@ func (a *Asm) Metadata(r *run.Rng) {
 		c.Nat(1, RandWidth(r))
 		cnt := r.Pick(1, 2, 3, 64, r.Range(1, 64))
 		format := r.Intn(4)
+		n := cnt * (format + 1)
+		if r.Chance(1, 8) {
+			// a palette cut short, the chunk length agreeing with what is there
+			// (invalid); most often the largest one, 64 entries of 4 bytes
+			if r.Bool() {
+				cnt, format = 64, 3
+				n = 256
+			}
+			n -= r.Pick(1, 2, 4, format+1, r.Range(1, n))
+			if n < 0 {
+				n = 0
+			}
+		}
 		c.Byte(byte(cnt-1) | byte(format)<<6)
-		for i := 0; i < cnt*(format+1); i++ {
+		for i := 0; i < n; i++ {
 			c.Byte(r.Byte())
 		}
 		w := RandWidth(r)
